@@ -2,6 +2,8 @@ package props
 
 import (
 	"fmt"
+	"go/token"
+	"go/types"
 	"strings"
 
 	"golang.org/x/tools/go/ssa"
@@ -141,6 +143,64 @@ func runC12(c *eng.Ctx) {
 		}
 	})
 
+	// ---- 2b. a shard without matching data ends its own scan quietly --------------------------------------------------------------
+	c.Rule("ERRFLOW", "query/stage{per-shard plan nodes ignore not-found}", func() { shardNodesIgnoreNotFound(c) })
+
+	// ---- 2c. planning the same statement again (intermediate node) yields the same range and interval ---------------------------
+	c.Rule("ORDER", "query/context.calcTimeRangeAndInterval{range aligned before it is measured}", func() {
+		f := c.Fn("query/context.calcTimeRangeAndInterval")
+		callers := p.StaticCallers(f)
+		c.Check(len(callers) >= 2, "planned-at-root-and-intermediate", nil, f, "the statement is planned by the root and again by the intermediate node from the root's output", fmt.Sprintf("%d callers", len(callers)))
+		isBound := func(in ssa.Instruction, fld string) (*ssa.FieldAddr, bool) {
+			var addr ssa.Value
+			switch x := in.(type) {
+			case *ssa.Store:
+				addr = x.Addr
+			case *ssa.UnOp:
+				addr = x.X
+			}
+			fa, ok := addr.(*ssa.FieldAddr)
+			if !ok || eng.FieldKeyOfAddr(fa) != "pkg/timeutil.TimeRange."+fld {
+				return nil, false
+			}
+			return fa, eng.DependsOnField(fa.X, "sql/stmt.Query.TimeRange") || strings.Contains(p.Desc(fa.X), "TimeRange")
+		}
+		align := map[string][]eng.Site{}
+		for _, fld := range []string{"Start", "End"} {
+			fld := fld
+			align[fld] = p.Sites(f, func(p *eng.Prog, in ssa.Instruction) bool {
+				st, ok := in.(*ssa.Store)
+				if !ok {
+					return false
+				}
+				if _, ok := isBound(in, fld); !ok {
+					return false
+				}
+				return len(p.CallsIn(st.Val, "pkg/timeutil.Truncate")) > 0
+			})
+			c.Check(len(align[fld]) > 0, "aligned:"+fld, nil, f, "the query range "+fld+" is truncated to the storage interval", "")
+		}
+		n := 0
+		for _, st := range c.Some(f, eng.StoreField("sql/stmt.Query.Interval"), "statement.Interval = …") {
+			eng.WalkExpr(st.Instr.(*ssa.Store).Val, func(x ssa.Value) bool {
+				u, ok := x.(*ssa.UnOp)
+				if !ok {
+					return true
+				}
+				for _, fld := range []string{"Start", "End"} {
+					if _, ok := isBound(u, fld); ok {
+						n++
+						c.Check(eng.DominatedBy(f, u, align[fld], nil), fmt.Sprintf("measured-after-alignment:%s[%d]", fld, n), u, f,
+							"the automatic group-by interval is derived from the ALIGNED range: the intermediate node plans the statement the root already planned, and must arrive at the same interval (the leaves bucket by it, the root merges by its own)",
+							"TimeRange."+fld+" is read for the interval before it is truncated")
+					}
+				}
+				return true
+			})
+		}
+		c.Check(n >= 2, "auto-interval-from-range", nil, f, "the automatic interval is computed from the range's Start and End", fmt.Sprintf("%d reads", n))
+	})
+
 	// ---- 3. completion --------------------------------------------------------------------------------------------------------------
 	c.Rule("GUARD", btcT+".tryClose", func() {
 		f := c.Fn(btcT + ".tryClose")
@@ -271,4 +331,123 @@ func runC12(c *eng.Ctx) {
 		okH := strings.Contains(d, "Sum64String(") && strings.Contains(d, ".Tags") && strings.Contains(d, "%") && strings.Contains(d, "len(receivers)")
 		c.Check(okH, "hash-of-tags-mod-receivers", nil, f, "the receiver index of a series is hash(series tags) modulo the number of receivers (the same series from every leaf meets at one intermediate node)", "index "+d)
 	})
+}
+
+// mayOriginate reports whether fn, or a module function it can call (static calls, closures called in place, and — for
+// interface calls — every module implementation: CHA), produces the error held in the given package-level variable: loads
+// it for any purpose other than comparing against it (errors.Is / == / !=). The chain found is returned for the report.
+func mayOriginate(p *eng.Prog, fn *ssa.Function, global string, depth int, memo map[*ssa.Function]string, stack map[*ssa.Function]bool) string {
+	if fn == nil || fn.Blocks == nil {
+		return ""
+	}
+	if r, ok := memo[fn]; ok {
+		return r
+	}
+	if stack[fn] || depth < 0 {
+		return ""
+	}
+	// only a function that can hand an error back matters: an error-typed result that is not the nil constant on every return
+	rs := fn.Signature.Results()
+	if rs.Len() == 0 || !types.Identical(rs.At(rs.Len()-1).Type(), types.Universe.Lookup("error").Type()) {
+		return ""
+	}
+	some := false
+	for _, b := range fn.Blocks {
+		if r, ok := b.Instrs[len(b.Instrs)-1].(*ssa.Return); ok && b != fn.Recover && len(r.Results) > 0 && !eng.IsNilConst(r.Results[len(r.Results)-1]) {
+			some = true
+		}
+	}
+	if !some {
+		return ""
+	}
+	stack[fn] = true
+	defer delete(stack, fn)
+	res := ""
+	for _, b := range fn.Blocks {
+		for _, in := range b.Instrs {
+			if u, ok := in.(*ssa.UnOp); ok && u.Op == token.MUL {
+				if g, ok := u.X.(*ssa.Global); ok && eng.ShortPkg(g.Pkg.Pkg.Path())+"."+g.Name() == global {
+					for _, ref := range *u.Referrers() {
+						switch r := ref.(type) {
+						case *ssa.BinOp:
+							continue
+						case ssa.CallInstruction:
+							if cal := r.Common().StaticCallee(); cal != nil && cal.Pkg != nil && cal.Pkg.Pkg.Path() == "errors" {
+								continue
+							}
+						}
+						res = p.FuncKey(fn)
+					}
+				}
+			}
+		}
+	}
+	if res == "" {
+	outer:
+		for _, b := range fn.Blocks {
+			for _, in := range b.Instrs {
+				cl, ok := in.(ssa.CallInstruction)
+				if !ok {
+					continue
+				}
+				for _, g := range p.ModuleCallees(cl) {
+					if sub := mayOriginate(p, g, global, depth-1, memo, stack); sub != "" {
+						res = p.FuncKey(fn) + " -> " + sub
+						break outer
+					}
+				}
+			}
+		}
+	}
+	if depth >= 4 || res != "" {
+		memo[fn] = res // a negative answer found with little depth left is not final
+	}
+	return res
+}
+
+// shardNodesIgnoreNotFound: the stages that run once per shard (they hold the shard they scan) build their plan from
+// operators that ask the shard's index and data for the query's metric, tags and series; such an operator answers
+// constants.ErrNotFound when this shard has nothing that matches. baseStage.execute swallows that answer only for a
+// node created with NewPlanNodeWithIgnore — a plain NewPlanNode makes the shard's emptiness fail the whole leaf task.
+// Decided per construction site: the operator's concrete type is resolved from the constructor, and its Execute is
+// searched (call graph, CHA for interface calls, depth 6) for a producer of ErrNotFound.
+func shardNodesIgnoreNotFound(c *eng.Ctx) {
+	p := c.P
+	memo := map[*ssa.Function]string{}
+	ex := c.Fn("query/stage.baseStage.execute")
+	c.Check(len(p.Sites(ex, invokeOn("", "IgnoreNotFound"))) > 0 && len(p.Sites(ex, eng.CallTo("errors.Is"))) > 0, "execute-honours-the-flag", nil, ex,
+		"baseStage.execute swallows ErrNotFound of a node that asks for it", "")
+	ign, plain := 0, 0
+	for _, st := range []string{"shardScanStage", "shardLookupStage"} {
+		f := c.Fn("query/stage." + st + ".Plan")
+		for _, s := range p.Sites(f, eng.CallTo("query/stage.NewPlanNodeWithIgnore")) {
+			_ = s
+			ign++
+		}
+		for i, s := range p.Sites(f, eng.CallTo("query/stage.NewPlanNode")) {
+			plain++
+			op := eng.Unwrap(eng.CallArgs(s.Instr.(*ssa.Call))[0])
+			var exec *ssa.Function
+			if cl, ok := op.(*ssa.Call); ok {
+				if ctor := cl.Common().StaticCallee(); ctor != nil {
+					for _, r := range eng.SuccessReturns(ctor) {
+						v := eng.RetVal(r, 0)
+						if mi, ok := v.(*ssa.MakeInterface); ok {
+							exec = p.SSA.LookupMethod(mi.X.Type(), ctor.Pkg.Pkg, "Execute")
+						}
+					}
+				}
+			}
+			if exec == nil {
+				c.Check(false, fmt.Sprintf("%s:operator-resolved[%d]", st, i), s.Instr, f, "the operator of a plan node is built by a constructor returning a concrete operator", "operator "+p.Desc(op))
+				continue
+			}
+			chain := mayOriginate(p, exec, "constants.ErrNotFound", 6, memo, map[*ssa.Function]bool{})
+			c.Check(chain == "", fmt.Sprintf("%s:%s", st, p.FuncKey(exec)), s.Instr, f,
+				"a per-shard plan node whose operator can answer ErrNotFound is created with NewPlanNodeWithIgnore (a shard that holds no matching data does not fail the query)",
+				"created with NewPlanNode although "+chain+" produces constants.ErrNotFound")
+		}
+	}
+	c.Check(ign >= 4, "ignoring-nodes-exist", nil, nil, "the per-shard stages create their lookup nodes with NewPlanNodeWithIgnore", fmt.Sprintf("%d ignoring, %d plain", ign, plain))
+	c.Observe(fmt.Sprintf("per-shard plan nodes: %d ignoring, %d plain", ign, plain))
 }
